@@ -222,8 +222,8 @@ func SchAssignNames(t *SchTy, prefix string) {
 		case 'U':
 			for i := range t.Members {
 				m := &t.Members[i]
+				k++ // always: a clone with preset member names must number its other types alike
 				if m.Name == "" {
-					k++
 					m.Name = fmt.Sprintf("%sN%d", prefix, k)
 				}
 				walk(m.T, m.Name)
